@@ -4,15 +4,22 @@ EXTENDS AxialExpansion
 Bound == TLCGet("level") <= MaxLevel
 \* one line per distinct state: the design, the calls that lead to it, the specification's observation of it
 EmitState == PrintT(ToJson([A |-> A, path |-> path, obs |-> Obs, lit |-> Lit]))
+NoRepl == {}
+NoEdits == {}
+\* replacement blocks: a fuel block whose designer locked the clad as target, a plain fuel block, a shield block
+ReplSome == {[t |-> "fuel", e |-> 2], [t |-> "fuel", e |-> 0], [t |-> "shield", e |-> 0]}
+\* geometry edit: the clad tubes' multiplicity 4 -> 2 (they are then no longer linked to a 4-fold clad)
+EditSome == {[name |-> "clad", m |-> 2]}
 \* the catalogue, printed once: the adapter builds real components / blocks from it
 ASSUME PrintT(ToJson([CT |-> CT, BT |-> BT]))
 
 \* D: fluid-only DUMMY block on top, detailed changer;  NoDet: the same with the default (non-detailed) changer;
 \* TopD(types, hs, top, hd, det): an ordinary block of type `top` (height hd) on top
-D(types, hs, hd) == [types |-> types, hs |-> hs, hd |-> hd, top |-> "", det |-> TRUE, hot |-> 0]
-NoDet(types, hs, hd) == [types |-> types, hs |-> hs, hd |-> hd, top |-> "", det |-> FALSE, hot |-> 0]
+D(types, hs, hd) == [types |-> types, hs |-> hs, hd |-> hd, top |-> "", det |-> TRUE, hot |-> 0, rule |-> "default"]
+NoDet(types, hs, hd) == [types |-> types, hs |-> hs, hd |-> hd, top |-> "", det |-> FALSE, hot |-> 0, rule |-> "default"]
+FreeClad(d) == [d EXCEPT !.rule = "freeclad"]            \* linkage through a subclass hook: cladding never linked
 Hot(d, lvl) == [d EXCEPT !.hot = lvl]                      \* the same design built hot (Thot = 250 C x lvl, Tinput = 0 C)
-TopD(types, hs, top, hd, det) == [types |-> types, hs |-> hs, hd |-> hd, top |-> top, det |-> det, hot |-> 0]
+TopD(types, hs, top, hd, det) == [types |-> types, hs |-> hs, hd |-> hd, top |-> top, det |-> det, hot |-> 0, rule |-> "default"]
 \* growth sets (closed under inverse)
 G3  == {<<5, 6>>, <<1, 1>>, <<6, 5>>}
 G5  == {<<5, 6>>, <<10, 11>>, <<1, 1>>, <<11, 10>>, <<6, 5>>}
@@ -38,7 +45,8 @@ DesignsThorough == DesignsQuick \cup {
     TopD(<<"fuelb">>, <<6>>, "bigfuel", 4, FALSE),
     TopD(<<"fuel">>, <<5>>, "fuel", 4, FALSE),
     D(<<"fuel", "plenum">>, <<5, 4>>, 3),
-    Hot(NoDet(<<"fuel", "plenumr">>, <<5, 4>>, 3), 1) }
+    Hot(NoDet(<<"fuel", "plenumr">>, <<5, 4>>, 3), 1),
+    FreeClad(NoDet(<<"fuel", "plenum">>, <<5, 4>>, 3)) }
 DesignsEmit == {
     Hot(D(<<"fuel", "plenums">>, <<5, 4>>, 3), 2),
     NoDet(<<"fuelb", "bigfuel">>, <<5, 5>>, 2),
@@ -48,9 +56,10 @@ DesignsDeep == { NoDet(<<"fuel", "plenum">>, <<4, 4>>, 16), TopD(<<"fuel">>, <<4
 \* static cases: target-component choice and link detection over many block designs (one call each)
 TopCases(S) == {TopD(<<t1>>, <<4>>, t2, 4, det) : t1 \in {"fuel", "shield"}, t2 \in S, det \in BOOLEAN}
 HotCases == {Hot(D(<<t1, t2>>, <<4, 4>>, 4), 2) : t1, t2 \in {"fuel", "plenums", "plenumr"}}     \* marginal overlaps, built hot, both orders
-DesignsCases == {D(<<t1, t2>>, <<4, 4>>, 4) : t1, t2 \in DOMAIN BT} \cup {NoDet(<<t>>, <<4>>, 4) : t \in DOMAIN BT} \cup TopCases(DOMAIN BT) \cup HotCases
+FreeCases == {FreeClad(D(<<t1, t2>>, <<4, 4>>, 4)) : t1, t2 \in {"fuel", "plenum", "liner", "shield"}}
+DesignsCases == {D(<<t1, t2>>, <<4, 4>>, 4) : t1, t2 \in DOMAIN BT} \cup {NoDet(<<t>>, <<4>>, 4) : t \in DOMAIN BT} \cup TopCases(DOMAIN BT) \cup HotCases \cup FreeCases
 DesignsCasesQuick == {D(<<t1, t2>>, <<4, 4>>, 4) : t1 \in {"fuel", "shield", "liner", "wires"}, t2 \in DOMAIN BT}
-                     \cup {NoDet(<<t>>, <<4>>, 4) : t \in DOMAIN BT} \cup TopCases({"plenum", "fuel", "afuel", "liner", "nofuel"}) \cup HotCases
+                     \cup {NoDet(<<t>>, <<4>>, 4) : t \in DOMAIN BT} \cup TopCases({"plenum", "fuel", "afuel", "liner", "nofuel"}) \cup HotCases \cup FreeCases
 TriplesQuick == {<<0, 1, 2>>, <<2, 0, 1>>}
 TriplesThorough == {<<0, 1, 2>>, <<2, 0, 1>>, <<1, 1, 0>>, <<2, 1, 0>>}
 TriplesEmit == {<<-1, 0, 2>>}        \* -250 C, exactly 0.0 C, 500 C (block means such as -1/2 and 1 in between)
@@ -59,6 +68,10 @@ NoTriples == {}
 FromBoth == BOOLEAN
 FromRef == {FALSE}
 GOne == {<<1, 1>>}
+\* histories with edits between the calls: call ; replace a block / edit a multiplicity ; call
+DesignsHist == { NoDet(<<"fuel", "plenum">>, <<5, 4>>, 4) }
+DesignsHistThorough == { D(<<"fuel", "fuel", "plenum">>, <<4, 4, 3>>, 4), NoDet(<<"shield", "fuel">>, <<4, 5>>, 3), FreeClad(NoDet(<<"fuel", "plenum">>, <<5, 4>>, 4)) }
+GUp == {<<1, 1>>, <<6, 5>>}
 DesignsLit == { D(<<"fuel", "plenum">>, <<5, 4>>, 3), NoDet(<<"fuelb", "bigfuel">>, <<5, 5>>, 2) }
-DesignsEmitThorough == DesignsEmit \cup { TopD(<<"shield", "fuel">>, <<4, 5>>, "plenum", 3, FALSE) }
+DesignsEmitThorough == DesignsEmit \cup { TopD(<<"shield", "fuel">>, <<4, 5>>, "plenum", 3, FALSE), FreeClad(NoDet(<<"fuel", "plenum">>, <<5, 4>>, 3)) }
 =====================================================================================================
